@@ -73,6 +73,10 @@ func (w *World) registerTimeIntrinsics() {
 		sec, nsec := e.timeParts(a[0])
 		return mkAdd(mkMul(mkSub(sec, mkInt(unixToInternal)), billion), nsec)
 	}
+	I["(time.Time).Nanosecond"] = func(e *Exec, fn *ssa.Function, a []Value) Value {
+		_, nsec := e.timeParts(a[0])
+		return nsec
+	}
 	I["(time.Time).IsZero"] = func(e *Exec, fn *ssa.Function, a []Value) Value {
 		sec, nsec := e.timeParts(a[0])
 		return mkAnd(mkEq(sec, mkInt(0)), mkEq(nsec, mkInt(0)))
@@ -172,6 +176,9 @@ func (w *World) registerTimeIntrinsics() {
 
 // opaque method calls (contexts)
 func (w *World) opaqueMethodImpl(ov *OpaqueVal, name string) opaqueMethodFn {
+	if ov.name == "hash" {
+		return hashMethod(name)
+	}
 	if ov.name == "ctx" {
 		switch name {
 		case "Done":
